@@ -3,7 +3,7 @@
 cd /verif
 for seed in $1; do
   for id in $2; do
-    out=$(VERIF_SCRATCH=sweep VERIF_SEED=$seed ./check $id --tier quick 2>&1 | grep -v "^KNOWN\|WARNING" | tail -3 | tr '\n' ' ')
+    out=$(VERIF_SCRATCH=sweep-$id-$seed VERIF_SEED=$seed ./check $id --tier quick 2>&1 | grep -v "^KNOWN\|WARNING" | tail -3 | tr '\n' ' ')
     echo "seed=$seed $id :: $out"
   done
 done
